@@ -274,7 +274,7 @@ impl Prop for C24 {
         "E3 simrt-sequential"
     }
     fn expected_probes() -> Vec<&'static str> {
-        vec!["c24_refill_inside_token", "c24_error_after_prefix", "c24_eintr_propagated", "c24_torn_file_parsed", "c24_records_validated", "c24_syntax_error_file", "c24_include_item"]
+        vec!["c24_refill_inside_token", "c24_error_after_prefix", "c24_eintr_propagated", "c24_torn_file_parsed", "c24_records_validated", "c24_syntax_error_file", "c24_include_item", "c24_records_only_with_include"]
     }
 }
 
@@ -359,10 +359,50 @@ fn parse_with(reader: FaultyReader) -> (Vec<Item>, usize, usize) {
     (items, 0, 0)
 }
 
+/// The `records_only()` adapter over the same stream: records until the first `$INCLUDE`, which
+/// is an error there - and, like every error, the end of the iteration.
+fn parse_records_only(reader: FaultyReader) -> Vec<Item> {
+    let len = reader.data.len();
+    let guard = Guard { inner: reader, limit: 4 * len + 64 };
+    let mut items = vec![];
+    let mut it = Parser::new(guard).records_only();
+    let mut errored = false;
+    for _ in 0..4 * len + 64 {
+        match it.next() {
+            None => break,
+            Some(_) if errored => {
+                viol("item-after-error", format!("records_only(): another item after the first error (items so far {})", items.len()));
+                break;
+            }
+            Some(Ok(l)) => items.push(Item::Rec { line: l.number, owner: l.record.owner.to_string(), ttl: u32::from(l.record.ttl), class: u16::from(l.record.class), rtype: u16::from(l.record.rr_type), rdata: l.record.rdata.octets().to_vec() }),
+            Some(Err(_)) => {
+                errored = true;
+                // keep polling a few times: nothing more may come
+                items.push(Item::Syntax("error".into()));
+            }
+        }
+    }
+    items
+}
+
 fn run(scn: &Scn) {
     simrt::start(world_cfg(1, FaultCfg::none()));
     let file = crate::util::unhex(&scn.file_hex);
     let (base, _, _) = parse_with(FaultyReader::new(file.clone()));
+    if !crate::util::has_violation() && base.iter().any(|i| matches!(i, Item::Include { .. })) {
+        // the adapter must yield the records before the first $INCLUDE, then one error, then nothing
+        simrt::probe("c24_records_only_with_include");
+        let mut want: Vec<Item> = base.iter().take_while(|i| matches!(i, Item::Rec { .. })).cloned().collect();
+        want.push(Item::Syntax("error".into()));
+        let mut rd = FaultyReader::new(file.clone());
+        if let Some(p) = scn.plans.first() {
+            rd.chunks = p.chunks.clone();
+        }
+        let got = parse_records_only(rd);
+        if !crate::util::has_violation() && got != want {
+            viol("records-only-adapter-differs", format!("records_only() yielded {} items, expected the {} records before the first $INCLUDE and then exactly one error; got {:?}", got.len(), want.len() - 1, got.iter().rev().take(3).collect::<Vec<_>>()));
+        }
+    }
     if matches!(base.last(), Some(Item::Syntax(_))) {
         simrt::probe("c24_syntax_error_file");
     }
